@@ -234,6 +234,8 @@ def _pixel_limit_first(ex, st, post, result):
     over = z3.And(z3.Not(limit.isnone), limit.val.t != 0, n > limit.val.t)
     yield ('oversized_request_refused', z3.Not(over),
            'width x height > max_output_pixels => RequestError (the request is not accepted)')
+    yield ('non_positive_size_refused', z3.And(size.items[0].t > 0, size.items[1].t > 0),
+           'an accepted request has a positive width and a positive height (a negative factor would make the product pass any limit)')
     vals = T.evs(st, 'validate_layers', 'WMSServer.validate_layers', 'validate_format', 'validate_srs')
     yield ('validated', z3.BoolVal(len(vals) == 3), 'layers, format and SRS are validated on the accepting path')
 
